@@ -73,21 +73,26 @@ let words_of w (line : n list) =
   List.map (fun x -> if String.length x > 1 && x.[0] = '$' then
                         (try List.assoc (String.sub x 1 (String.length x - 1)) w.vars with Not_found -> "") else x) ws
 
-let run_line (w : world) (line : n list) : world * z list =
+(* one pipeline *)
+let run_pipe (w : world) (line : n list) : world * z =
   match words_of w line with
   | prog :: rest when ends_with prog "/hp" ->
       let st = match rest with
         | ctl :: _ when String.length ctl > 2 && String.sub ctl 0 2 = "@x" ->
             (try int_of_string (String.sub ctl 2 (String.length ctl - 2)) with _ -> 0)
         | _ -> 0 in
-      ({ w with log = ("hp:" ^ String.concat "," rest) :: w.log }, [z_of_int st])
+      ({ w with log = ("hp:" ^ String.concat "," rest) :: w.log }, z_of_int st)
   | prog :: file :: lst :: _ when ends_with prog "/seq" ->
       let k = try List.assoc file w.ctr with Not_found -> 0 in
       let sts = List.map (fun x -> try int_of_string x with _ -> 2) (String.split_on_char ',' lst) in
       let st = List.nth sts (min k (List.length sts - 1)) in
-      ({ w with log = ("seq:" ^ file ^ "," ^ lst) :: w.log; ctr = (file, k + 1) :: List.remove_assoc file w.ctr }, [z_of_int st])
-  | [] -> (w, [])
-  | _ -> (w, [z_of_int 0])   (* any other command (echo, true ...): not traced, succeeds *)
+      ({ w with log = ("seq:" ^ file ^ "," ^ lst) :: w.log; ctr = (file, k + 1) :: List.remove_assoc file w.ctr }, z_of_int st)
+  | _ -> (w, z_of_int 0)   (* any other command (echo, true ...): not traced, succeeds *)
+
+(* one script line = an and-or list of pipelines: the extracted transcription of
+   execute::run_command_line (Model/ListExec.v) over run_pipe; the result vector is the list of
+   the statuses of the pipelines that were executed *)
+let run_line (w : world) (line : n list) : world * z list = run_line_of run_pipe w line
 
 let for_words (w : world) (text : n list) : world * n list list =
   (w, List.map str_of_string (List.filter (fun x -> x <> "") (words_of w text)))
